@@ -173,24 +173,25 @@ pub mod prelude {
     pub fn ju(v: &[usize]) -> String { format!("{:?}", v) }
 
     // user functions named by `method(...)`: deliberately asymmetric / value-changing
-    pub fn eq_m_L(a: &L, b: &L) -> bool { a.0 + 1 == b.0 }
+    // (the methods of L are generic over the leaf: a reference too many or too few in the generated call is a type error)
+    pub fn eq_m_L<T: Leaf>(a: &T, b: &T) -> bool { a.id() + 1 == b.id() }
     pub fn eq_m_F(a: &F, b: &F) -> bool { a.0 < b.0 }
     pub fn eq_m_S(a: &S, b: &S) -> bool { a.0.len() + 1 == b.0.len() }
-    pub fn cmp_m_L(a: &L, b: &L) -> Ordering { (a.0 % 2, b.0).cmp(&(b.0 % 2, a.0)) }
+    pub fn cmp_m_L<T: Leaf>(a: &T, b: &T) -> Ordering { (a.id() % 2, b.id()).cmp(&(b.id() % 2, a.id())) }
     pub fn cmp_m_S(a: &S, b: &S) -> Ordering { b.0.len().cmp(&a.0.len()) }
     pub fn cmp_m_F(a: &F, b: &F) -> Ordering { b.0.total_cmp(&a.0) }
-    pub fn pcmp_m_L(a: &L, b: &L) -> Option<Ordering> { if a.0 == 2 && b.0 == 0 { None } else { Some(b.0.cmp(&a.0)) } }
+    pub fn pcmp_m_L<T: Leaf>(a: &T, b: &T) -> Option<Ordering> { if a.id() == 2 && b.id() == 0 { None } else { Some(b.id().cmp(&a.id())) } }
     pub fn pcmp_m_S(a: &S, b: &S) -> Option<Ordering> { if a.0.is_empty() { None } else { Some(a.0.len().cmp(&b.0.len())) } }
     pub fn pcmp_m_F(a: &F, b: &F) -> Option<Ordering> { b.0.partial_cmp(&a.0) }
     pub fn clone_m_L(a: &L) -> L { L((a.0 + 1) % 3) }
     pub fn clone_m_S(a: &S) -> S { S(if a.0.is_empty() { "a".to_string() } else { String::new() }) }
     pub fn clone_m_F(a: &F) -> F { F(if a.0.is_nan() { 0.0 } else { f32::NAN }) }
-    pub fn dbg_m_L(a: &L, f: &mut fmt::Formatter<'_>) -> fmt::Result { write!(f, "M<{}>", a.0) }
+    pub fn dbg_m_L<T: Leaf>(a: &T, f: &mut fmt::Formatter<'_>) -> fmt::Result { write!(f, "M<{}>", a.id()) }
     pub fn dbg_m_S(a: &S, f: &mut fmt::Formatter<'_>) -> fmt::Result { f.debug_list().entry(&a.0.len()).entry(&a.0).finish() }
     pub fn dbg_m_F(a: &F, f: &mut fmt::Formatter<'_>) -> fmt::Result { f.write_str("flt") }
     pub struct DbgM<'a, T>(pub &'a T, pub fn(&T, &mut fmt::Formatter<'_>) -> fmt::Result);
     impl<'a, T> fmt::Debug for DbgM<'a, T> { fn fmt(&self, f: &mut fmt::Formatter<'_>) -> fmt::Result { (self.1)(self.0, f) } }
-    pub fn hash_m_L<H: Hasher>(a: &L, h: &mut H) { h.write_u16(100 + a.0 as u16); }
+    pub fn hash_m_L<T: Leaf, H: Hasher>(a: &T, h: &mut H) { h.write_u16(100 + a.id() as u16); }
     pub fn hash_m_S<H: Hasher>(a: &S, h: &mut H) { h.write_u32(a.0.len() as u32); h.write_u8(7); }
     pub fn hash_m_F<H: Hasher>(a: &F, h: &mut H) { h.write_u32(a.0.to_bits()); }
 }
